@@ -59,6 +59,7 @@ def mailbox_programs(tier):
     O = 'o'
     add('own_join_twice', None, {'c1': [('o_call', O, 'a1'), ('to_addr', O, 'a'), ('stop', 'a'), ('join', O), ('join', O)]}, owning=True)
     add('own_two_join_futures', None, {'c1': [('await_fut', 'j1')], 'c2': [('to_addr', O, 'a'), ('stop', 'a'), ('join', O)]}, owning=True, pre=(('mk_join', O, 'j1'),))
+    add('own_parked_join_future', None, {'c1': [('mk_join', O, 'j1'), ('poll_once', 'j1'), ('to_addr', O, 'a'), ('stop', 'a'), ('join', O)]}, owning=True)
     add('own_join_after_last_drop', None, {'c1': [('o_send', O, 'a1'), ('mk_join', O, 'j1'), ('drop', O), ('await_fut', 'j1')]}, owning=True)
     add('own_join_after_panic', None, {'c1': [('o_call', O, 'panic:1'), ('join', O)]}, owning=True)
     add('own_join_failed_start', None, {'c1': [('join', O)]}, owning=True, started={1: 'err'})
